@@ -21,3 +21,35 @@ func SetNativeEndianVerif(order binary.ByteOrder) binary.ByteOrder {
 	nativeEndian = order
 	return old
 }
+
+// ConstantsVerif reports the unexported constants the compiler and the loader use (verification builds only).
+func ConstantsVerif() map[string]uint64 {
+	return map[string]uint64{
+		"errnoEPERM":           uint64(errnoEPERM),
+		"errnoENOSYS":          uint64(errnoENOSYS),
+		"x32SyscallMask":       uint64(x32SyscallMask),
+		"prSetNoNewPrivs":      uint64(prSetNoNewPrivs),
+		"seccompSetModeStrict": uint64(seccompSetModeStrict),
+		"seccompSetModeFilter": uint64(seccompSetModeFilter),
+		"syscallNumOffset":     uint64(syscallNumOffset),
+		"archOffset":           uint64(archOffset),
+	}
+}
+
+// ActionNamesVerif returns a copy of the action name table (verification builds only).
+func ActionNamesVerif() map[Action]string {
+	out := make(map[Action]string, len(actionNames))
+	for k, v := range actionNames {
+		out[k] = v
+	}
+	return out
+}
+
+// FilterFlagNamesVerif returns a copy of the filter flag name table (verification builds only).
+func FilterFlagNamesVerif() map[FilterFlag]string {
+	out := make(map[FilterFlag]string, len(filterFlagNames))
+	for k, v := range filterFlagNames {
+		out[k] = v
+	}
+	return out
+}
